@@ -20,16 +20,24 @@ def main():
     ap.add_argument("dir")
     ap.add_argument("--props", default=None)
     ap.add_argument("--confirm", action="store_true")
+    ap.add_argument("--confirm-only", action="store_true")
     a = ap.parse_args()
     meta = json.load(open(os.path.join(a.dir, "meta.json")))
     props = ALL if a.props == "all" else (a.props.split(",") if a.props else [meta["property"]])
     patch = os.path.abspath(os.path.join(a.dir, "patch.diff"))
     res = {"mutant": os.path.basename(os.path.normpath(a.dir)), "property": meta["property"], "checks": {}}
-    rc, out = sh("git -C /repo status --porcelain")
+    if a.confirm_only:
+        try:
+            res = json.load(open(os.path.join(a.dir, "result.json")))
+        except OSError:
+            pass
+        a.confirm = True
+        props = []
+    rc, out = sh("git -C /repo status --porcelain") if not a.confirm_only else (0, "")
     if out.strip():
         print("refusing: /repo has uncommitted changes:\n" + out)
         return 2
-    rc, out = sh(f"git -C /repo apply --3way {patch} || git -C /repo apply {patch}")
+    rc, out = sh(f"git -C /repo apply {patch} || git -C /repo apply --3way {patch}") if not a.confirm_only else (0, "")
     if rc != 0:
         print("patch does not apply:\n" + out[-2000:])
         res["applies"] = False
@@ -59,9 +67,12 @@ def main():
             print(f"{res['mutant']} {p}: {'DETECTED (' + kind + ')' if viol else ('ERROR rc=' + str(rc) if rc not in (0, 1) else 'MISSED')}"
                   + (f" clauses={detail.get('failed_clauses')} source={detail.get('source')!r} broken={detail.get('broken')}" if detail else ""), flush=True)
     finally:
-        sh("git -C /repo checkout -- . && git -C /repo clean -fdq crates src")
+        if not a.confirm_only:
+            sh("git -C /repo reset -q --hard HEAD && git -C /repo checkout -- . && git -C /repo clean -fdq crates src")
+        if not a.confirm_only:
+            sh("/verif/tools/build_harness.sh dev rel dev-sep rel-sep")   # never leave binaries of a changed tree behind
         rc, out = sh("git -C /repo status --porcelain")
-        if out.strip():
+        if out.strip() and not a.confirm_only:
             print("WARNING: /repo not clean after undo:\n" + out)
     if a.confirm:
         wt = f"/tmp/mutchk-{os.getpid()}"
@@ -71,17 +82,17 @@ def main():
             name = "demo_" + res["mutant"].replace("-", "_")
             conf = {}
             if demo and demo.endswith(".rs"):
-                sh(f"cp {os.path.join(a.dir, demo)} {wt}/crates/sas-lexer/tests/{name}.rs")
+                sh(f"mkdir -p {wt}/crates/sas-lexer/tests && cp {os.path.join(a.dir, demo)} {wt}/crates/sas-lexer/tests/{name}.rs")
                 feat = "--features macro_sep" if "macro_sep" in (meta.get("demo_cmd", "") + meta.get("configs", "")) else ""
                 rel = "--release" if "--release" in meta.get("demo_cmd", "") else ""
                 rc0, o0 = sh(f"cargo test -p sas-lexer --test {name} --offline {feat} {rel}", cwd=wt)
                 conf["demo_passes_without_change"] = rc0 == 0
-                sh(f"git apply --3way {patch} || git apply {patch}", cwd=wt)
+                sh(f"git apply {patch} || git apply --3way {patch}", cwd=wt)
                 rc1, o1 = sh(f"timeout 600 cargo test -p sas-lexer --test {name} --offline {feat} {rel}", cwd=wt)
                 conf["demo_fails_with_change"] = rc1 != 0
                 sh(f"rm {wt}/crates/sas-lexer/tests/{name}.rs")
             else:
-                sh(f"git apply --3way {patch} || git apply {patch}", cwd=wt)
+                sh(f"git apply {patch} || git apply --3way {patch}", cwd=wt)
             rc2, o2 = sh("cargo test --workspace --no-fail-fast --offline 2>&1 | grep -E '^test result' | head -3", cwd=wt)
             conf["suite"] = o2.strip().split("\n")[0][:200]
             conf["suite_passes_with_change"] = "0 failed" in o2 and "2152 passed" in o2
